@@ -37,7 +37,8 @@ TSkip == /\ IsEv("Skip") /\ i <= Len(Stream) /\ Cur = Ev.b /\ Skip
          /\ \/ Ev.why = "known" /\ Cur \in dBlk
             \/ Ev.why \in {"parent-missing", "unprocessable"} /\ Cur \notin dBlk /\ Par(Cur) \notin dBlk
             \/ Ev.why = "bft-rejected" /\ Cur \notin dBlk /\ Par(Cur) \in dBlk /\ ~IsAnc(mFin, Par(Cur))
-TBegin == IsEv("Begin") /\ i <= Len(Stream) /\ Cur = Ev.b /\ Begin
+TBegin == /\ IsEv("Begin") /\ i <= Len(Stream) /\ Cur = Ev.b
+          /\ IF "own" \in DOMAIN Ev /\ Ev.own THEN BeginOwn ELSE Begin
 \* a state write that is not the last one of the block: orphan trie nodes, no abstract change
 TStatePart == /\ IsEv("W") /\ Ev.cls = "state" /\ ~Ev.last /\ up /\ pc = "state" /\ InStream /\ Cur = Ev.b
               /\ UNCHANGED vars
